@@ -36,6 +36,8 @@ def families(tier):
     add("cba_listed", D["cba_listed"], 0, 5)
     add("fan_in", D["fan_in"], 0, 5)
     add("fan_out", D["fan_out"], 3, 5)
+    add("tap_long_branch", topos.TAPS["tap_long_branch"], 3, 4)
+    add("tap_scale_and_linear", topos.TAPS["tap_scale_and_linear"], 0, 3)
     add("ring2_dfix_scale_dfix", R["ring2_dfix_scale_dfix"], 3, 4, delay_sum_ge_steps=True)
     add("ring3_dfix", R["ring3_dfix"], 0, 4, delay_sum_ge_steps=True)
     for name, uq, ut in (("finisher_alone", 3, 5), ("finisher_feeds_dpush", 4, 6)):
